@@ -61,6 +61,8 @@ StepZoned(e) ==
       loc == Add3(o.res, OfSeconds(e.offset))
   IN
   /\ Check(o.ok, "zoned_clock_read_raises")
+  \* (for a real zone the driver logs the zone interval it took the offset from: it must be the one containing the instant read)
+  /\ (Has(e, "iv") => Check(Le3(e.iv.start, o.res) /\ Lt3(o.res, e.iv.end) /\ e.iv.wall = e.offset, "machinery_reference_interval_contains_the_instant_read"))
   /\ Check(e.has_instant => e.instant = o.res, "zoned_clock_instant_is_wrapped_clock_instant")
   /\ Check(e.has_day => e.local[1] = loc[1], "zoned_clock_local_date_is_instant_plus_offset")
   /\ Check(e.has_time => (e.local[2] = loc[2] /\ e.local[3] = loc[3]), "zoned_clock_local_time_is_instant_plus_offset")
